@@ -125,6 +125,12 @@ Through(I, root, c, p) ==
                                    IF a \notin DomQ(I, var, q) THEN <<q, NegInf>> ELSE Go(var + 1, TrQ(I, var, q, a), val + CoQ(I, var, q, a))
            r == Go(0, Q(I, root.st), 0) IN ~IsNegInf(r[2]) /\ r[1] = Q(I, c.st) /\ root.value + r[2] <= c.value
 
+\* ---- the dominance rule of the model families (harness: ModelDominance): coordinates = membership bits / capacity, value used;
+\*      the "keyed" rule only compares states whose cardinality has the same parity
+PopCount(I, q) == IF I.family = "knapsack" THEN Cardinality({i \in 0..30 : (q \div (2 ^ i)) % 2 = 1}) ELSE Cardinality(q)
+DomCoords(I, st) == IF I.family = "knapsack" THEN <<st.x[1]>> ELSE [i \in 1..I.b |-> IF i \in ToSet(st.x) THEN 1 ELSE 0]
+DomKey(I, st) == IF I.dom = "keyed" THEN PopCount(I, Q(I, st)) % 2 ELSE 0
+
 \* ---- well-formedness (hypotheses of the properties), evaluated on every instance before anything else
 RubOf(I, HT, depth, q) ==
   CASE I.rub = "none" -> PosInf
